@@ -88,10 +88,25 @@ def cases(rng, tier):
             out.append(base.finish(base.build(rng, op, rng.chance(0.08), gen_ops.gen_nn), rng))
     for _ in range(20 if tier == 'quick' else 600):
         out.append(bnseq_case(rng))
+    # every nn op with an INTERIOR first operand that has a second consumer (created before or after the op): both backward
+    # functions accumulate into the same non-leaf buffer, in either order (builder and oracle shared with C03)
+    from props import c03
+    for op in gen_ops.OPS_NN:
+        if op in ('max_pool1d', 'max_pool2d'): continue
+        for _ in range(3 if tier == 'quick' else 60):
+            try:
+                c = c03.fanout_case(rng, op)
+            except Exception:
+                c = None
+            if c:
+                c.update({'kind': 'fanout', 'op': op + '/fanout', 'nout': 1, 'malformed': False, 'leaves': [((), [0.0], True)], 'args': []})
+                out.append(c)
     return out
 
 
 def impl(c):
+    if c.get('kind') == 'fanout':
+        return tprog.run_program(c['lines'])
     if c.get('kind') == 'bnseq':
         im = BNExec(); im.momentum = c['mom']
         try:
@@ -102,6 +117,11 @@ def impl(c):
 
 
 def oracle(c):
+    if c.get('kind') == 'fanout':
+        from props import c03
+        f = c03.oracle(c)
+        if f: f['case'] = dict(f['case'], kind='fanout')
+        return f
     if c.get('kind') == 'bnseq':
         # the gradient of the first (eval-mode) output w.r.t. its input must be g * gamma / sqrt(rv0 + eps): recompute
         io = impl(c)
@@ -125,6 +145,10 @@ def oracle(c):
 
 def rerun_known(k): return oracle(_fix(k['witness'])) is not None
 def _fix(c):
+    if c.get('kind') == 'fanout':
+        from props import c03
+        d = c03._unstrip(c); d['kind'] = 'fanout'
+        return d
     return c if c.get('kind') == 'bnseq' else base._fix(c)
 def replay(fail):
     f = oracle(_fix(fail['case']))
